@@ -8,21 +8,21 @@ package dir
 //@ specfunc dirOK(dip *inode.Inode, op *fstxn.FsTxn) = locked(dip) && inodeInv(dip) && opOpen(op) && dirtyInv()
 //@ specfunc dirMods(dip *inode.Inode) = othersClean(dip)
 
-//@ spec IllegalName
+//@ spec IllegalName(name)
 //@   props C04 C11 C06
 //@   ensures [I4-illegal] result <==> (len(name) == 0 || (len(name) == 1 && name[0] == 46) || (len(name) == 2 && name[0] == 46 && name[1] == 46) || (exists i uint64 :: i < len(name) && (name[i] == 47 || name[i] == 0))) @C04
 //@   loop 0 invariant i >= 0 && i <= int(len(name)) && (forall j uint64 :: j < uint64(i) ==> name[j] != 47 && name[j] != 0)
 //@   loop 0 decreases len(name) - uint64(i)
 
 // S2 (C10), Q1 (C19): the directory-entry codec.
-//@ spec encodeDirEnt
+//@ spec encodeDirEnt(de)
 //@   props C10 C19 C11 C04
 //@   requires de != nil
 //@   requires [I4-store] len(de.name) <= 112 @C04 @C19 @C11
 //@   allocates []uint8, marshal.Enc, cell:uint64
 //@   ensures [S2-dirent] fresh(result) && len(result) == 128 && le64(result, 0) == de.inum && le64(result, 8) == len(de.name) @C10 @C19
 
-//@ spec decodeDirEnt
+//@ spec decodeDirEnt(d)
 //@   props C10 C11
 //@   requires [slot] len(d) == 128 && le64(d, 8) <= 112 @C11
 //@   allocates dir.dirEnt, marshal.Dec, cell:uint64
@@ -37,7 +37,7 @@ package dir
 
 // E7 (C13): an insertion writes exactly one entry-aligned slot (the first
 // free one at or after lastoff, else a new slot at the end); entries never move.
-//@ spec AddNameDir
+//@ spec AddNameDir(dip, op, inum, name, lastoff)
 //@   props C13 C04 C10 C11 C19 C09
 //@   requires dirReady(dip, op) && dip.Kind == 2 && lastoff & 127 == 0
 //@   requires [I4-store] len(name) <= 112 @C04 @C19
@@ -53,7 +53,7 @@ package dir
 //@   loop 0 decreases dip.Size - off
 //@   loop 0 invariant [ibits] abits[theIalloc] == old(abits)[theIalloc]
 
-//@ spec IsDirEmpty
+//@ spec IsDirEmpty(dip, op)
 //@   props C05 C04 C11 C10
 //@   requires dirReady(dip, op) && dip.Kind == 2
 //@   preserves [allocInv] allocInv() @C15 @C04
@@ -92,7 +92,7 @@ package dir
 //@ onwrite nfstypes.Entryplus3.Name_handle: lasthino = ite(value.Handle_follows && len(value.Handle.Data) == 16, le64(value.Handle.Data, 0), 0)
 //@ onwrite nfstypes.Entryplus3.Name_handle: lasthgen = ite(value.Handle_follows && len(value.Handle.Data) == 16, le64(value.Handle.Data, 8), 0)
 //@ onwrite nfstypes.Entryplus3.Name_attributes: lastattrid = ite(value.Attributes_follow, uint64(value.Attributes.Fileid), 0)
-//@ spec ApplyEnts
+//@ spec ApplyEnts(dip, op, start, count, f)
 //@   props C13 C11 C06 C10
 //@   requires dirReady(dip, op) && dip.Kind == 2
 //@   requires [E1-cookie] start & 127 == 0 @C13 @C11
@@ -126,7 +126,7 @@ package dir
 //@ specfunc dcacheOK(dip *inode.Inode) = dip.Dcache != nil ==> (forall n string :: cname(dip, n) == dnames[dip.Inum][n])
 //@ specfunc dirModsOK(dip *inode.Inode, op *fstxn.FsTxn) = dirDone(dip, op) && dip.Kind == old(dip.Kind)
 
-//@ spec mkDcache
+//@ spec mkDcache(dip, op)
 //@   props C10 C06 C11
 //@   requires dirReady(dip, op) && dip.Kind == 2
 //@   preserves [allocInv] allocInv() @C15 @C04
@@ -138,7 +138,7 @@ package dir
 //@   assumes [S3-built] dcacheOK(dip)
 //@   ensures dirModsOK(dip, op) && dip.Size == old(dip.Size)
 
-//@ spec LookupName
+//@ spec LookupName(dip, op, name)
 //@   props C02 C10 C06 C11 C08
 //@   requires dirReady(dip, op)
 //@   preserves [allocInv] allocInv() @C15 @C04
@@ -155,7 +155,7 @@ package dir
 //@   ensures dirModsOK(dip, op) && dip.Size == old(dip.Size) && (dip.Kind == 2 ==> dip.Dcache != nil)
 //@   ensures [dcache-id] (old(dip.Dcache) != nil ==> dip.Dcache == old(dip.Dcache)) && (dip.Dcache == old(dip.Dcache) || fresh(dip.Dcache))
 
-//@ spec RemNameDir
+//@ spec RemNameDir(dip, op, name)
 //@   props C13 C04 C10 C11 C09
 //@   requires dirReady(dip, op)
 //@   preserves [allocInv] allocInv() @C15 @C04
@@ -172,7 +172,7 @@ package dir
 //@   ensures [dcache-id] (old(dip.Dcache) != nil ==> dip.Dcache == old(dip.Dcache)) && (dip.Dcache == old(dip.Dcache) || fresh(dip.Dcache))
 
 // Q1 (C19): names of up to 112 bytes are accepted, longer ones refused with no effect.
-//@ spec AddName
+//@ spec AddName(dip, op, inum, name)
 //@   props C02 C04 C10 C19 C11 C09 C13
 //@   requires dirReady(dip, op)
 //@   requires [I3-store] inum < 32768 @C04
@@ -191,7 +191,7 @@ package dir
 //@   ensures [E7-grow] dip.Size == old(dip.Size) || (result && dip.Size == old(dip.Size) + 128) @C13 @C09
 //@   ensures dirModsOK(dip, op) && (result ==> dip.Dcache != nil)
 
-//@ spec RemName
+//@ spec RemName(dip, op, name)
 //@   props C02 C04 C10 C19 C11 C09 C13
 //@   requires dirReady(dip, op)
 //@   preserves [allocInv] allocInv() @C15 @C04
@@ -209,7 +209,7 @@ package dir
 //@   ensures [E7-size] dip.Size == old(dip.Size) @C13 @C09
 //@   ensures dirModsOK(dip, op) && (result ==> dip.Dcache != nil)
 
-//@ spec InitDir
+//@ spec InitDir(dip, op, parent)
 //@   props C04 C11 C10
 //@   requires dirReady(dip, op) && parent < 32768
 //@   preserves [allocInv] allocInv() @C15 @C04
@@ -220,7 +220,7 @@ package dir
 //@   ensures [I6-dots] result ==> dnames[dip.Inum]["."] == dip.Inum && dnames[dip.Inum][".."] == parent @C04
 //@   ensures dirModsOK(dip, op)
 
-//@ spec MkRootDir
+//@ spec MkRootDir(dip, op)
 //@   props C04 C15 C11
 //@   requires dirReady(dip, op) && dip.Inum < 32768
 //@   preserves [allocInv] allocInv() @C15 @C04
@@ -233,7 +233,7 @@ package dir
 
 // READDIRPLUS: like ApplyEnts, but every child is locked (unless already
 // owned), shown to the callback under its lock, and released again.
-//@ spec Apply
+//@ spec Apply(dip, op, start, dircount, maxcount, f)
 //@   props C13 C06 C03 C11 C14 C10
 //@   requires dirReady(dip, op) && dip.Kind == 2
 //@   requires [E1-cookie] start & 127 == 0 @C13 @C11
